@@ -499,6 +499,11 @@ class RaftNode(Entity):
         if self._state != RaftState.LEADER:
             return []
 
+        if term < self._current_term:
+            # Reply to an AppendEntries this node sent as leader of an EARLIER term: its
+            # match_index describes a log this node may since have lost. Ignore it.
+            return []
+
         if follower is None:
             return []
 
